@@ -13,6 +13,13 @@ prop("C11", "exploration",
      "input, +-1 and beyond: the receive queue of an unreliable tube (maxBufferedPackets messages of 0-1200 bytes), the reassembly window "
      "of a reliable tube (maxWindowSize out-of-order frames behind a missing first frame) or an in-order backlog of that many frames; then "
      "the drawn frames follow (also those injected while stopping), each aimed at one of these tubes with probability 1/2, all other fields as drawn. "
+     "One case in five: FLOOD OF OPEN REQUESTS - the peer requests a tube for every identifier of the local side's parity, of its own parity or "
+     "for all 256 (unreliable, reliable or both classes; all but 0-5 of each parity; before or after the drawn frames; the application keeps "
+     "these tubes or closes each at once): nothing ties a request's identifier to the requester's parity, so the peer can occupy the identifiers "
+     "the local side creates from. In these cases and in a quarter of the others the LOCAL APPLICATION then CREATES 1-3 tubes of each class: every "
+     "Create returns within 10 virtual seconds a tube of the local parity or an error (ErrOutOfTubes). A bubble that freezes in a case with local "
+     "creates (a Create spinning under the muxer lock blocks nothing durably, so no virtual bound can elapse) is decided by repeating fixture, "
+     "junk, local creates (20 s each) and Stop (30 s) with real timers outside the bubble: signature ...:confirmed-in-real-time. "
      "Oracle: no panic, also not in a timer/sender goroutine during the 3 virtual minutes the case keeps running after Stop; the "
      "control tube moves fresh data both ways during and after the junk; Muxer.Stop returns within 10 virtual seconds; when Stop has "
      "returned no tube that is still registered or was ever handed out by Accept is open (white box: closed channel), and Accept has "
@@ -21,7 +28,12 @@ prop("C11", "exploration",
      "strings and mutations of valid encodings (every length/enum field set to {0,1,actual+-1,0xFF,0xFFFF,large}, every "
      "truncation) into common.ReadString, codex.GetCmd/readSize/getStatus, portforwarding.readPacket, the authgrants readers and "
      "userauth.GetInitMsg (over a real reliable tube); oracle: value or error, no panic, returns on a closed stream, bytes "
-     "allocated during the call <= 256 KiB + 16 x len(input). Every decoder input is presented twice: in one piece, and under a "
+     "allocated during the call <= 256 KiB + 16 x len(input). portforwarding.readPacket: a nil error comes with a usable value (non-nil "
+     "address whose Network/String do not panic - what its caller does with it); the sweep covers network types 0-6, 9, 255. The same control "
+     "messages (forwarding type biased to local/remote and their neighbours, network type to 1-3 and the values next to them) are also written "
+     "into a real reliable tube of a muxer pair and handed to the REAL CALLER portforwarding.StartPFServer with a stub Forward: no panic, returns "
+     "once the peer closed, allocation <= 8 MiB + 16 x len(input); the Authorize hook (absent in some cases) refuses remote forwardings always and "
+     "local ones when the harness refuses everything or the bytes name a non-loopback IP literal, so the check only ever dials the local machine. Every decoder input is presented twice: in one piece, and under a "
      "drawn delivery pattern (vlib/wire Delivery: one byte per Read, segments or per-call limits of drawn sizes, (0, nil) results "
      "never twice in a row, end-of-stream returned together with the last bytes; enumerated sweeps derive the pattern from the "
      "input bytes); the same oracles hold under every delivery. For the two readers that need a real tube the pattern becomes up "
@@ -29,6 +41,7 @@ prop("C11", "exploration",
      "Non-trivial there = input whose length fields disagree with its size.",
      ["junk never addresses the honest control tube's own (reliability, id): an authenticated peer can always disturb a tube it owns",
       "the application keeps calling Accept (as hopserver's session loop does)",
+      "StartPFServer is driven with remote forwardings refused and local ones permitted only towards the local machine (judged on the bytes sent)",
       "a tube the application holds without reading is still closed by Muxer.Stop; nothing is claimed about the content such a tube would deliver",
       "32-bit length fields are capped at 32 MiB in the decoder harness (a literal 0xFFFFFFFF made unfixed GetCmd allocate 24 GB and get the test process killed)"],
      [dict(name="muxer", pkg="tubes", run="^TestVerifC11Muxer$", shards=dict(quick=16, thorough=16), thorough_scale=40, timeout=dict(quick=900, thorough=7200)),
